@@ -62,7 +62,9 @@ impl Out {
         };
         Ok(Out { w: BufWriter::with_capacity(1 << 20, w), n: 0 })
     }
+    /// write one event; object fields whose value is null are dropped (TLC's JSON reader rejects null)
     pub fn ev(&mut self, v: Value) {
+        let v = strip_nulls(v);
         serde_json::to_writer(&mut self.w, &v).expect("write");
         self.w.write_all(b"\n").expect("write");
         self.n += 1;
@@ -121,4 +123,12 @@ pub fn catch<T>(f: impl FnOnce() -> T + std::panic::UnwindSafe) -> Result<T, Str
         else if let Some(s) = e.downcast_ref::<String>() { s.clone() }
         else { "panic".to_string() }
     })
+}
+
+pub fn strip_nulls(v: Value) -> Value {
+    match v {
+        Value::Object(o) => Value::Object(o.into_iter().filter(|(_, x)| !x.is_null()).map(|(k, x)| (k, strip_nulls(x))).collect()),
+        Value::Array(a) => Value::Array(a.into_iter().map(strip_nulls).collect()),
+        x => x,
+    }
 }
